@@ -122,6 +122,30 @@ def check(F, rep, tier):
                 if n_bm: probs.append("bump arithmetic without a bump amount")
         if probs: rep.bad("R05.3", "sibling-deviates:" + proc, "%s deviates from its siblings: %s" % (proc, sorted(set(probs))[:4]), f.where())
         else: rep.ok("R05.3", "%s: override sets, bump adds to old.unwrap_or(0) (checked) then resets from %s, writes only vars.%s (%d paths)" % (proc, lvl, fld, npaths), nontrivial_key=proc)
+    # process_pre_release_num: every bump path resets from PreReleaseNum exactly once and writes only the pre-release variable
+    f = zfn(F, "<impl crate::version::zerv::core::Zerv>::process_pre_release_num")
+    if rep.anchor("R05.3", "Zerv::process_pre_release_num", f):
+        rep.fn_seen(f)
+        probs = []; npaths = 0
+        for p in mir.enum_paths(f, limit=5000):
+            if f.blocks[p[-1]]["t"][0] != "ret": continue
+            sp = mir.SymPath(f, p)
+            if sp.ret()[0] == "call" and "from_residual" in str(sp.ret()[1]): continue
+            npaths += 1
+            bm = None
+            for d, (rel, vals), b in sp.conds:
+                if d[0] == "discr" and d[1] == ("param", 3): bm = (rel == "eq" and 1 in vals) or (rel == "ne" and 0 in vals and 1 not in vals)
+            resets = [(b, a) for b, nme, a, t in sp.calls if reset_fn is not None and nme == reset_fn.path]
+            for pl, val, raw in sp.writes:
+                if raw[0] == 1 and "pre_release" not in mir.show(pl): probs.append("writes %s" % mir.show(pl))
+            if bm:
+                if len(resets) != 1: probs.append("a bump path calls reset %d times (conditions %s)" % (len(resets), [mir.show(d)[:40] for d, o, b in sp.conds]))
+                else:
+                    lv = mir.show(resets[0][1][1]) if len(resets[0][1]) > 1 else "?"
+                    if not lv.endswith("Precedence::PreReleaseNum") and promoted_variant(F, resets[0][1][1]) != "PreReleaseNum": probs.append("resets from %s" % lv)
+            elif resets: probs.append("reset without a bump")
+        if probs: rep.bad("R05.3", "sibling-deviates:process_pre_release_num", "process_pre_release_num: %s" % sorted(set(probs))[:3], f.where())
+        else: rep.ok("R05.3", "process_pre_release_num: every bump path (existing or newly created pre-release) resets from PreReleaseNum once (%d paths)" % npaths, nontrivial_key="ppn")
     # ---- R05.4 reset table ------------------------------------------------------------------------------------
     if rep.anchor("R05.4", "Zerv::reset_lower_precedence_components", reset_fn):
         rep.fn_seen(reset_fn)
